@@ -78,6 +78,11 @@ def shapes():
     out["ccccc"] = mk("ccccc", ("f", "f", "g", "h", "h"))
     out["cdccc"] = mk("cdccc", ("f", None, "g", "h", "h"))
     out["nofunc"] = mk("ccccc", (None, None, "g", None, None))
+    anon = mk("ccccc", ("f", "f", "g", "h", "h"), end_label=False)
+    for b in anon["sections"][0]["blocks"]:
+        if b["n"] == "B":
+            b["anon"] = True  # a block nothing labels, next to labelled ones
+    out["anonB"] = anon
     # a two-block callee whose first block does not return, called once; room for a second call
     A = scen.code_block("A", [10, 11], None, f="f", e=True)
     B = scen.code_block("B", [20], ["ret"], f="f")
@@ -93,13 +98,26 @@ def shapes():
 SHAPES = shapes()
 
 
+def _labels_of(spec):
+    names = set(spec.get("ext", ()))
+    for s in spec["sections"]:
+        for b in s["blocks"]:
+            names.update(Lg.start_labels(b))
+            names.update(b.get("le", ()))
+            if Lg.func_label(b):
+                names.add(Lg.func_label(b))
+    return names
+
+
 def atoms_for(spec, rich):
+    known = _labels_of(spec)
+    usable = [p for p in PATCH_KINDS.values() if all(t[0] == "lab" or len(t) < 2 or not isinstance(t[1], str) or t[1].startswith(".L") or t[1] in known for t in p)]
     out = []
     for s in spec["sections"]:
         for b in s["blocks"]:
             n = len(b["i"])
             if b["k"] == "c":
-                pl = list(PATCH_KINDS.values()) if rich else [PATCH_KINDS["ord"]]
+                pl = usable if rich else [PATCH_KINDS["ord"]]
             else:
                 pl = [{"bytes": [0]}]
             for k in range(n + 1):
